@@ -198,7 +198,7 @@ class PDFPage:
 
         try:
             return self._normalize_rect(
-                parse_rect(resolve1(val) for val in resolve1(value))
+                parse_rect(resolve1(val) for val in list_value(value))
             )
 
         except PDFValueError:
@@ -212,7 +212,7 @@ class PDFPage:
 
         try:
             return self._normalize_rect(
-                parse_rect(resolve1(val) for val in resolve1(value))
+                parse_rect(resolve1(val) for val in list_value(value))
             )
 
         except PDFValueError:
